@@ -12,6 +12,7 @@ import RichchkModel.Model.Editors
 import RichchkModel.Generated.Consts
 import RichchkModel.Generated.Imports
 import RichchkModel.Model.FileOps
+import RichchkModel.Model.RichEnc
 open Richchk
 
 def showR {α} (f : α → String) : R α → String
@@ -185,6 +186,45 @@ def opImport1 (idxStr : String) : String :=
         (if st.loaded.testBit f then "L" else "-") ++ natList (sortNats (registryKeys st r)))
   | none => "bad-op"
 
+def trigFieldNames : List String × List String :=
+  match Generated.decTable.find? nTRIG with
+  | some (.trig cf af _ _ _ _ _ _ _) => (cf.map (·.name), af.map (·.name))
+  | _ => ([], [])
+
+def richCfg : RichCfg := {
+  decTable := Generated.decTable
+  actionRows := Generated.actionTable
+  condRows := Generated.conditionTable
+  actionFields := trigFieldNames.2
+  condFields := trigFieldNames.1
+  enums := Generated.enums
+  flagCodecs := Generated.flagCodecs
+  unitWeapons := Generated.unitWeapons
+  knownAi := Generated.knownAiScripts.map (·.2)
+  mrgnCfg := Generated.mrgnCfg
+  uprpCfg := Generated.uprpCfg
+  swnmCfg := Generated.swnmCfg
+  mrgnSlots := Generated.mrgnEncodeSlots
+  cuwpSlots := Generated.maxCuwpSlots
+  wavSlots := Generated.maxWavFiles
+  switchSlots := Generated.maxSwitches
+  nConds := Generated.condsPerTrigger
+  nActs := Generated.actionsPerTrigger
+  nUnits := 228
+}
+
+def opCycle (hex : String) : String :=
+  match bytesOfHex hex with
+  | none => "bad-op"
+  | some bs =>
+    match cycle richCfg Generated.encTable bs with
+    | .error e => "ERR " ++ toString e
+    | .ok out =>
+      -- second cycle (idempotence)
+      match cycle richCfg Generated.encTable out with
+      | .error e => "OK " ++ hexOfBytes out ++ " CYCLE2-ERR " ++ toString e
+      | .ok out2 => "OK " ++ hexOfBytes out ++ (if out2 = out then " IDEMPOTENT" else " CHANGES-AGAIN")
+
 def opTrigRow (kind idStr : String) : String :=
   match idStr.toNat? with
   | some n =>
@@ -204,6 +244,7 @@ def step (line : String) : String :=
   | ["spec-layouts"] => jsonTable Spec.specTable
   | ["flags", nm, n] => opFlags nm n
   | ["trigrow", k, n] => opTrigRow k n
+  | ["cycle", h] => opCycle h
   | ["import1", e] => opImport1 e
   | ["wavms", f, r] => (match f.toNat?, r.toNat? with | some f, some r => (if r = 0 then "ERR other" else toString (wavDurationMs f r)) | _, _ => "bad-op")
   | ["alloc", k, t, b] => opAlloc k t b
